@@ -616,6 +616,20 @@ impl<T: Config> UdpProtocol<T> {
             return;
         }
 
+        // Until the handshake has completed we do not know the peer's magic, so nothing but the
+        // handshake itself is accepted: any other packet could come from anyone, and an input
+        // packet handled now would be taken for the peer's real input.
+        if matches!(
+            self.state,
+            ProtocolState::Initializing | ProtocolState::Synchronizing
+        ) && !matches!(
+            msg.body,
+            MessageBody::SyncRequest(_) | MessageBody::SyncReply(_)
+        ) {
+            trace!("Received non-handshake message before synchronization finished; ignoring");
+            return;
+        }
+
         // update time when we last received packages
         self.last_recv_time = Instant::now();
 
